@@ -75,6 +75,13 @@ const PC: &[&str] = &["p(X) :- q(X), X != c.", "p(X) :- q(X), X != c, X != d.", 
 const SN: &[&str] = &["spec: forall X (p(X) <-> q(X) and X != n).", "spec: forall X (p(X) -> q(X) and X < n). spec(backward): forall X (p(X) -> X != n).", "assumption: n > 0. spec: forall X (p(X) <-> q(X) and X < n)."];
 const SD: &[&str] = &["assumption(forward): q. spec: p <-> q.", "assumption(forward): q. spec: p.", "assumption: q. spec(backward): p. spec(forward): p or not p.", "assumption(forward): not q. spec: p <-> q. spec(backward): p -> q."];
 
+const UG2: &str = "input: e/2. output: r/1.";
+const P2: &[&str] = &["r(X) :- e(X, Y).", "r(Y) :- e(X, Y).", "r(X) :- e(X, Y), X != Y.", "r(X) :- e(X, X).", "r(X) :- t(X). t(X) :- e(X, Y), not e(Y, X).", "r(X) :- e(X, Y), not t(Y). t(X) :- e(X, X).", "{r(X)} :- e(X, Y). :- r(X), not e(X, X).", "r(X) :- e(X, Y), e(Y, X)."];
+const S2: &[&str] = &["spec: forall X (r(X) <-> exists Y (e(X, Y))).", "spec: forall X (r(X) -> exists Y (e(X, Y) and X != Y)). spec(backward): forall X Y (e(X, Y) and X != Y -> r(X)).", "spec: forall X (r(X) <-> e(X, X))."];
+
+const UGU: &str = "input: _q/1. input: _n -> integer. output: _p/1. assumption: _n >= 0.";
+const PU: &[&str] = &["_p(X) :- _q(X), X != _n.", "_p(X) :- _q(X), not _t(X). _t(_n).", "_p(X) :- _q(X), X != _c.", "_p(X) :- _q(X), not _t(X). _t(X) :- _q(X), X = _n.", "_p(X) :- _q(X), X < _n + 1, X != _n."];
+
 const P0: &[&str] = &[
     "p :- q.", "p :- not not q.", "p :- q, not t. t :- not q.", "p :- t. t :- q.", "p :- not t. t :- not q.", "{p} :- q.", "p :- q. :- not q.", "p.", "p :- t.", "p :- not t.", "t. p :- t, q.",
     "p :- q. :- p, not q.", "p :- q, t. t.", "p :- q. t :- p.", "p :- q, not t.", "p :- t. t :- u. u :- q.", "{p}. :- p, not q. :- q, not p.", "p :- q, not not p.", "p :- not not p, q.",
@@ -112,7 +119,7 @@ pub fn cases(deep: bool) -> Vec<(Case, Vec<&'static [&'static str]>)> {
     let mut out = Vec::new();
     let mut k = 0usize;
     let flags_for = |k: usize| -> Vec<&'static [&'static str]> { if deep { FLAGS.to_vec() } else { vec![FLAGS[0], FLAGS[1 + k % (FLAGS.len() - 1)], FLAGS[1 + (k / 2 + 3) % (FLAGS.len() - 1)]] } };
-    for (group, ug) in [(P0, UG0), (P0S, UG0S), (P1, UG1), (P1, UG1A), (PN, UGN), (PC, UGC)] {
+    for (group, ug) in [(P0, UG0), (P0S, UG0S), (P1, UG1), (P1, UG1A), (PN, UGN), (PC, UGC), (P2, UG2), (PU, UGU)] {
         let n = group.len();
         for i in 0..n {
             let js: Vec<usize> = if deep { (0..n).collect() } else { vec![(i + 1) % n, (i + 4) % n, (i + 9) % n] };
@@ -120,7 +127,7 @@ pub fn cases(deep: bool) -> Vec<(Case, Vec<&'static [&'static str]>)> {
         }
     }
     for (l, r, ug) in SPECIAL_PAIRS { k += 1; out.push((Case { left: Some(l), program: r, spec: None, ug, outline: None }, if deep { FLAGS.to_vec() } else { vec![FLAGS[0], FLAGS[1], FLAGS[2 + k % 3]] })); }
-    for (specs, progs, ug) in [(S0, P0, UG0), (S1, P1, UG1), (SN, PN, UGN), (SD, P0, UG0)] {
+    for (specs, progs, ug) in [(S0, P0, UG0), (S1, P1, UG1), (SN, PN, UGN), (SD, P0, UG0), (S2, P2, UG2)] {
         for (si, s) in specs.iter().enumerate() {
             let n = progs.len();
             let js: Vec<usize> = if deep { (0..n).collect() } else { vec![si % n, (si * 3 + 1) % n, (si * 5 + 2) % n] };
